@@ -1,6 +1,6 @@
 (* C01 -- every command executes exactly once, fed by its finished dependencies. *)
 From Coq Require Import List Arith Bool.
-From MP Require Import Model.Sched Proofs.SchedProofs Proofs.SchedTop.
+From MP Require Import Model.Sched Model.SchedFail Proofs.SchedProofs Proofs.SchedTop Proofs.SchedResume Proofs.SchedFailProofs.
 Import ListNotations.
 
 (* For EVERY command semantics F, every program P that passes the pre-pass of Program.run (unique result
@@ -36,6 +36,46 @@ Example C01_example :
   | _ => False end.
 Proof. vm_compute. repeat split; reflexivity. Qed.
 
+(* Resuming.  Program.run started from ANY consistent partial state -- a memo whose entries belong to commands of the program, each
+   the command's semantics applied to the memoised results of what it references: what result reads before the first run, a run
+   that failed inside some execute() (a failing execute memoises nothing), or an interrupted run leave behind; the trace recorded
+   so far is arbitrary and may hold the Enter of an aborted execution -- succeeds, appends exactly one Enter and one Exit for every
+   command that was not finished and nothing for the finished ones, keeps every memoised result, and ends in the solution of the
+   equations.  C01_exactly_once is the case of the empty state, C01_history the case of the complete one. *)
+Theorem C01_resume : forall (V : Type) (F : cmd -> list V -> V) P fuel (s0 : st V),
+  accepted P -> length P < fuel -> consistent F P s0 ->
+  exists suffix s, run_program F fuel P s0 = Ok s /\ trace s = trace s0 ++ suffix /\ extends s0 s /\
+    (forall n, In n (names P) -> fin s n = true /\
+       count_ev (Enter n) suffix = (if fin s0 n then 0 else 1) /\ count_ev (Exit n) suffix = (if fin s0 n then 0 else 1)) /\
+    (forall n, ~ In n (names P) -> count_ev (Enter n) suffix = 0 /\ count_ev (Exit n) suffix = 0) /\
+    solves V F P (get s).
+Proof. exact run_resume. Qed.
+(* ... and a run in which some execute() fails -- whichever, whenever: Fo is ANY partial semantics that agrees with F where it is
+   defined -- leaves such a consistent partial state behind, extending the one it started from (Model/SchedFail.v: the failing
+   command memoises nothing and the exception unwinds through every command that was waiting for it).  So by C01_resume the
+   next run(), with the cause repaired, executes exactly what had not finished. *)
+Theorem C01_failed_run_leaves_a_consistent_state : forall (V : Type) (F : cmd -> list V -> V) (Fo : cmd -> list V -> option V),
+  (forall c vs v, Fo c vs = Some v -> v = F c vs) ->
+  forall P fuel (s0 : st V), accepted P -> length P < fuel -> consistent F P s0 ->
+  match run_programf Fo fuel P (memo s0) with
+  | FOk m' | FFailed m' _ => forall t, consistent F P {| memo := m'; trace := t |} /\
+                                      (forall n w, assoc (memo s0) n = Some w -> assoc m' n = Some w)
+  | FOther => False
+  end.
+Proof. exact failed_run_consistent. Qed.
+(* the diamond above after a run in which command 2 failed: 0 and 1 are memoised, 3 and 2 were entered and aborted *)
+Example C01_resume_example :
+  let P := [ {| nm := 3; rl := [(true, 1); (false, 2)] |}; {| nm := 1; rl := [(true, 0)] |};
+             {| nm := 2; rl := [(false, 0); (false, 0)] |}; {| nm := 0; rl := [] |} ] in
+  let F := fun c vs => nm c :: concat vs in
+  let s0 := {| memo := [(1, [1; 0]); (0, [0])]; trace := [Enter 3; Enter 1; Enter 0; Exit 0; Exit 1; Enter 2] |} in
+  match run_program F 6 P s0 with
+  | Ok s => trace s = trace s0 ++ [Enter 3; Enter 2; Exit 2; Exit 3] /\ get s 3 = Some [3; 1; 0; 2; 0; 0]
+  | _ => False end.
+Proof. vm_compute. split; reflexivity. Qed.
+
 Print Assumptions C01_exactly_once.
 Print Assumptions C01_acyclic_accepted.
 Print Assumptions C01_history.
+Print Assumptions C01_resume.
+Print Assumptions C01_failed_run_leaves_a_consistent_state.
